@@ -432,3 +432,18 @@ fn extract_stream_item_types(ty: &Type) -> Result<(Type, Type), Error> {
         )),
     }
 }
+
+/// The serde attributes of a call-parameter field: the wire name if the parameter is renamed, and
+/// `None` values are left out. Shared by the plain, `chain_` and chain-extension forms of a method so
+/// that all three put the same call on the wire.
+pub(super) fn param_serde_attrs(info: &super::types::ArgInfo<'_>) -> proc_macro2::TokenStream {
+    use quote::quote;
+    match (&info.serialized_name, info.is_optional) {
+        (Some(renamed), true) => {
+            quote! { #[serde(rename = #renamed, skip_serializing_if = "Option::is_none")] }
+        }
+        (Some(renamed), false) => quote! { #[serde(rename = #renamed)] },
+        (None, true) => quote! { #[serde(skip_serializing_if = "Option::is_none")] },
+        (None, false) => quote! {},
+    }
+}
